@@ -228,3 +228,41 @@ Qed.
 Lemma gen_sim_highest : forall f4 set,
   highest_outliers f4 set = fold_left (high_step (Z.quot f4 4)) set (-1, 0).
 Proof. intros. rewrite high_fold. reflexivity. Qed.
+
+(* ---------------- per-upkeep statistics ---------------- *)
+(* the scan for the first block after an eligibility point: the element is taken (parsed, subtracted, the start index
+   moved past it: 1-4) and the scan ends as soon as it is later than the eligibility block (Go string >) *)
+Lemma gen_sim_stats_scan : forall e x t,
+  scan_gt e (x :: t) =
+  match g_sim_stats_scan_performed (str_ltb e x), g_sim_stats_scan_checked (str_ltb e x) with
+  | ([1; 2; 3; 4], Brk), ([1; 2; 3; 4], Brk) => Some (x, t)
+  | ([], Fall), ([], Fall) => scan_gt e t
+  | _, _ => None
+  end.
+Proof. intros. cbn [scan_gt]. unfold g_sim_stats_scan_performed, g_sim_stats_scan_checked. destruct (str_ltb e x); reflexivity. Qed.
+
+(* one eligibility point: the performed list is scanned (1) exactly while some of it is left, and so is the checked
+   list (4); a delay is recorded only when the scan found a later block (diff >= 0) *)
+Lemma gen_sim_stats_body : forall ps np cs nc pd cd pf cf,
+  let acts := fst (g_sim_stats_body ps np cs nc pd cd pf cf) in
+  (In 1 acts <-> ps < np) /\ (In 4 acts <-> cs < nc) /\
+  ((In 2 acts \/ In 3 acts) <-> (ps < np /\ 0 <= pd)) /\ ((In 5 acts \/ In 6 acts) <-> (cs < nc /\ 0 <= cd)) /\
+  snd (g_sim_stats_body ps np cs nc pd cd pf cf) = Fall.
+Proof.
+  intros. unfold acts, g_sim_stats_body. rewrite !Z.geb_leb.
+  destruct (Z.ltb_spec ps np), (Z.leb_spec 0 pd), pf, (Z.ltb_spec cs nc), (Z.leb_spec 0 cd), cf; cbn;
+    repeat split; intros; try lia; try tauto;
+    repeat match goal with
+           | H : _ \/ _ |- _ => destruct H
+           | H : _ /\ _ |- _ => destruct H
+           end; try discriminate; try lia; try tauto.
+Qed.
+
+(* UpkeepIDs: an identifier is appended on its first occurrence only - the model's first_ids *)
+Lemma gen_sim_upkeep_ids : forall x t seen,
+  first_ids (x :: t) seen =
+  match g_sim_upkeep_ids_body (memN x seen) with
+  | ([1; 2], Fall) => x :: first_ids t (x :: seen)
+  | _ => first_ids t seen
+  end.
+Proof. intros. cbn [first_ids]. unfold g_sim_upkeep_ids_body. destruct (memN x seen); reflexivity. Qed.
